@@ -687,11 +687,16 @@ def check_ins_store(mon, sampler, store, name, where):
     lim = tol_q if tol_q is not None else 1e-4 + 1e-5 * np.abs(logQ)
     with np.errstate(invalid="ignore"):
         badq = ~((s["logQ"] == logQ) | (dq <= lim))
+    if stale:
+        # re-derived table: rows in the clamp region of the logit got a
+        # different (clamped-point) density than the one they were drawn with
+        badq &= ~clamped
     if badq.any() or np.any(np.isnan(s["logQ"])):
         i = int(np.argmax(badq))
         V(f"logQ!=mixture-of-log_q:{key}",
           f"row {i}: stored {s['logQ'][i]!r} recomputed {logQ[i]!r} "
-          f"(it={its[i]})")
+          f"(it={its[i]}, x={x[i].tolist()}, in clamp region: "
+          f"{bool(clamped[i])}, {int(badq.sum())} rows)")
     lu = s["logU"]
     lu_ref = np.where(np.any((x < 0) | (x >= 1), axis=1), -np.inf, 0.0)
     if np.any(lu != lu_ref):
